@@ -20,12 +20,29 @@ def interval_violation(v, lb, ub):
     return out
 
 
+CUSHION = 1e3
+
+
 def eq_tol(lb, ub):
-    """cobyqa's documented equality-detection tolerance for a limit pair."""
-    both = np.concatenate([np.ravel(lb), np.ravel(ub)])
-    fin = both[np.isfinite(both)]
-    w = max(1.0, float(np.max(np.abs(fin)))) if fin.size else 1.0
-    return 10.0 * EPS * max(np.size(lb), 1) * w
+    """Component-wise tolerance below which two limits are 'equal to
+    rounding': 10*eps*size*max(1, |lb_i|, |ub_i|) (array)."""
+    lb = np.atleast_1d(np.asarray(lb, dtype=float))
+    ub = np.atleast_1d(np.asarray(ub, dtype=float))
+    w = np.maximum(1.0, np.maximum(np.where(np.isfinite(lb), np.abs(lb), 0.0),
+                                   np.where(np.isfinite(ub), np.abs(ub), 0.0)))
+    return 10.0 * EPS * max(lb.size, 1) * w
+
+
+def eq_half(lb, ub):
+    """Slack granted per component for reading a pair of limits that are
+    equal to rounding (three decades of cushion) as one equality at the
+    midpoint: half the gap; zero for all other components."""
+    lb = np.atleast_1d(np.asarray(lb, dtype=float))
+    ub = np.atleast_1d(np.asarray(ub, dtype=float))
+    with np.errstate(invalid="ignore"):
+        gap = np.abs(ub - lb)
+        near = np.isfinite(gap) & (gap <= CUSHION * eq_tol(lb, ub))
+    return np.where(near, 0.5 * gap, 0.0)
 
 
 def bound_violation(x, lb, ub):
@@ -59,7 +76,8 @@ def nonlinear_violation(b, values):
     for nc, v in zip(b.nl, values):
         v = np.atleast_1d(np.asarray(v, dtype=float))
         viol.append(interval_violation(v, nc["lb"], nc["ub"]))
-        half.append(np.full(v.size, 0.5 * eq_tol(nc["lb"], nc["ub"])))
+        half.append(np.broadcast_to(eq_half(nc["lb"], nc["ub"]),
+                                    v.shape).astype(float))
     if viol:
         return np.concatenate(viol), np.concatenate(half)
     return np.zeros(0), np.zeros(0)
@@ -88,6 +106,8 @@ def true_maxcv(b, x, nl_values, bounds_consistent=True):
                     for lc in b.lin), default=0.0)
         slack = max(slack, 64.0 * EPS * (float(np.max(lmag)) +
                                          amax * scale * b.n))
+        slack = max([slack] + [float(np.max(eq_half(lc["lb"], lc["ub"]),
+                                            initial=0.0)) for lc in b.lin])
     nv, nhalf = nonlinear_violation(b, nl_values)
     parts.append(nv)
     if nv.size:
